@@ -467,7 +467,64 @@ def gen_world(rnd, depth=None):
                     if mn == "m2" and r.random() < 0.7:
                         m["augments"].append(("/%s:%s" % (p, tgt2[1]), [leaf(w)]))
                         break
+    if r.random() < 0.6:
+        add_cross_augments(w)
     return w
+
+
+
+def add_cross_augments(w):
+    """a module mx that imports every module augments nodes anywhere in the trees with bodies that say `uses` DIRECTLY
+    (the copies themselves become the merged children), preferring groupings defined in the module that wrote the
+    target node (for a target that is itself a copy: the module defining that grouping; else the target tree's module):
+    the copies belong to mx's namespace like everything an augment of mx adds, whoever defines the grouping"""
+    r = w.rnd
+    tops = [m for m in w.mods if not m["belongs"]]
+    mx = w.add_module("mx", "px")
+    mx["imports"] = [("i" + m["name"], m["name"]) for m in tops]
+    mx["body"].append(leaf(w))
+    insts = [x for x in instance_paths(w)
+             if x[2] in ("container", "list") and not any(c[0] == "uses" for c in x[4][-1])]
+    if not insts or not w.groupings:
+        return
+    used = set()
+    n_done = 0
+    for _try in range(12):
+        if n_done >= 3:
+            break
+        owner, steps, kind, origin, node = r.choice(insts)
+        writer = w.home[id(origin)].mod if origin is not None else None      # module that wrote the target node
+        cands = []
+        for g in w.groupings:
+            h = w.home[id(g)]
+            if h.parent is not None:
+                continue
+            gm = h.mod
+            if writer is not None:
+                pref = gm is writer or (gm["belongs"] or gm["name"]) == (writer["belongs"] or writer["name"])
+            else:
+                pref = (gm["belongs"] or gm["name"]) == owner
+            cands += [g] * (6 if pref else 1)
+        if not cands:
+            return
+        g = r.choice(cands)
+        key = (owner, tuple(steps))
+        if key in used or (origin is not None and g is origin):
+            continue
+        ab = []
+        af = w.topframe["mx"].child(ab, "container")
+        refs = w.refs_to(af, g)
+        if not refs:
+            continue
+        ref = r.choice(refs)
+        ab.append(uses(ref, g))
+        if r.random() < 0.4:
+            ab.append(leaf(w))
+        w.uses_log.append((af, ref, g))
+        mx["augments"].append(("/" + "/".join("i%s:%s" % (owner, st) for st in steps), ab))
+        used.add(key)
+        n_done += 1
+    w.cross_augments = n_done
 
 
 def gen_hook_world(rnd):
@@ -522,6 +579,8 @@ def gen_hook_world(rnd):
     for m in mods:
         if not m["body"]:
             m["body"].append(leaf(w))
+    if r.random() < 0.6:
+        add_cross_augments(w)
     return w
 
 
@@ -1355,6 +1414,7 @@ def run(res, tier, seed, proof):
                 if nd.get("prefix", "") != pfx:
                     badp.append("/%s/%s: prefix %r, want %r" % (owner, "/".join(steps), nd.get("prefix", ""), pfx))
             stats["direct_top_level_uses"] = stats.get("direct_top_level_uses", 0) + getattr(w, "direct_top", 0)
+            stats["cross_module_augments_with_uses"] = stats.get("cross_module_augments_with_uses", 0) + getattr(w, "cross_augments", 0)
             if badp:
                 violation("faithful copy: Entry.Prefix of a node is not the prefix of the module that defines it: %s"
                           % "; ".join(badp[:3]),
